@@ -65,7 +65,7 @@ ATOL = 1e-11
 ALLCLOSE_ATOL = 1e-8     # np.allclose(x, 0) default absolute tolerance (Curve.binormal)
 RULE = ('integrate: orders 1..5, open / non-open / periodic (every continuity) bases, intervals = whole domain, knot to knot, '
         'span interiors, single points, reversed, partly or wholly outside (clamped; periodic: seam refusal); center: random '
-        'objects pardim 1-3, rational with positive weights, periodic directions, unclamped / half-clamped non-periodic directions (basis functions reaching outside the domain; also in length/area/volume/representation changes); volume: random trivariate objects orders 2..4; '
+        'objects pardim 1-3, rational with positive weights, periodic directions, unclamped / half-clamped non-periodic directions (basis functions reaching outside the domain; also in length/area/volume/representation changes); volume: random trivariate objects orders 2..4, plus non-rational volumes (and planar surfaces) with DIFFERENT orders per direction in every arrangement ((p,q,p), (q,p,p), (p,p,q), all distinct; p up to 5) and full-degree control nets, measured directly and under swap of every pair / raise / insert / split / reverse of single directions; '
         'length: curves orders 2..5 dim 2-4 incl. rational/periodic, with t0/t1 = None, knots, span interiors, the value 0 strictly inside the domain, t0>t1; area: '
         'surfaces dim 2 and 3 (and 4: ValueError); curvature/torsion/binormal/normal: scalar, list and one-element list input, '
         'both sides at knots; representation changes on the real code: insert_knot, raise_order, split, reverse, swap, rotate+translate, '
@@ -74,7 +74,10 @@ RULE = ('integrate: orders 1..5, open / non-open / periodic (every continuity) b
         'protocol lines; non-trivial = the call returns a value.')
 REQUIRED_TAGS = ['form=integrate', 'integrate:open', 'integrate:nonopen', 'integrate:periodic', 'integrate:seam-refusal',
                  'integrate:clamped', 'integrate:p=1', 'form=center', 'center:rational', 'center:periodic', 'center:non-open',
-                 'length:non-open', 'length:bound=0', 'area:non-open', 'volume:non-open', 'repind:non-open', 'form=volume',
+                 'length:non-open', 'length:bound=0', 'area:non-open', 'volume:orders-pqp', 'volume:orders-qpp', 'volume:orders-ppq',
+                 'volume:orders-distinct', 'area:orders-pq', 'area:orders-qp', 'repind:mixed-orders:swap',
+                 'repind:mixed-orders:raise', 'repind:mixed-orders:split', 'repind:mixed-orders:insert',
+                 'repind:mixed-orders:reverse', 'volume:non-open', 'repind:non-open', 'form=volume',
                  'form=length', 'length:clipped', 'length:rational', 'length:periodic', 'length:empty', 'form=area', 'area:planar',
                  'area:3d', 'area:dim4-error', 'form=curvature', 'form=torsion', 'form=frenet', 'call=scalar', 'call=array',
                  'call=array1', 'repind:insert', 'repind:raise', 'repind:split', 'repind:reverse', 'repind:swap', 'repind:rigid',
@@ -267,6 +270,89 @@ def _well_oriented(rng, o):
     return {'bases': bases, 'cps': cps.tolist(), 'rational': o['rational']}
 
 
+def _mixed_object(rng, orders, dim, interior=None):
+    """Non-rational, clamped, non-periodic object with the given orders and a control net of full
+    polynomial degree in every direction (random interior control points around a dominant
+    identity-like map): the Jacobian really has the degree the orders allow."""
+    bases = []
+    for p in orders:
+        ni = interior if interior is not None else (rng.choice([0, 0, 1]) if p >= 4 else rng.choice([0, 1, 1]))
+        bases.append(gen.open_basis(rng, p, n_interior=ni, max_mult=1))
+    shape = [gen.basis_info(b)['n'] for b in bases]
+    o = {'bases': bases, 'cps': gen.rand_cps(rng, shape, dim, False), 'rational': False}
+    return _well_oriented(rng, o)
+
+
+def _order_pattern(o):
+    """Arrangement of the orders of a surface/volume spec: pqp, qpp, ppq (p > q), distinct, equal, mixed."""
+    ps = [b['order'] for b in o['bases']]
+    if len(ps) == 2:
+        return 'equal' if ps[0] == ps[1] else ('pq' if ps[0] > ps[1] else 'qp')
+    a, b, c = ps
+    if a == b == c:
+        return 'equal'
+    if a == c and a > b:
+        return 'pqp'
+    if b == c and b > a:
+        return 'qpp'
+    if a == b and a > c:
+        return 'ppq'
+    if len({a, b, c}) == 3:
+        return 'distinct'
+    return 'mixed'
+
+
+VOL_ORDERS = [(4, 2, 4), (2, 4, 4), (4, 4, 2), (4, 3, 4), (3, 4, 4), (4, 4, 3), (2, 3, 4), (4, 2, 3), (3, 4, 2),
+              (5, 2, 5), (5, 3, 5), (2, 5, 5), (5, 5, 3), (5, 4, 5), (3, 2, 3), (2, 3, 3), (3, 3, 2), (3, 5, 4),
+              (2, 4, 2), (4, 5, 4)]
+SURF_ORDERS = [(4, 2), (2, 4), (5, 3), (3, 5), (5, 2), (2, 5), (4, 3), (3, 4), (5, 4), (4, 5)]
+
+
+def _gen_mixed_orders(rng, tier, specs):
+    """Volumes and planar surfaces with different orders per direction in every arrangement — each
+    direction must get the Gauss rule of ITS order — measured directly and under the representation
+    changes that permute/raise/split single directions."""
+    nv = 8 if tier == 'quick' else len(VOL_ORDERS)
+    vols = VOL_ORDERS[:6] + rng.sample(VOL_ORDERS[6:], nv - 6) if nv < len(VOL_ORDERS) else list(VOL_ORDERS)
+    for k, orders in enumerate(vols):
+        o = _mixed_object(rng, orders, 3, interior=0 if (tier == 'quick' and max(orders) >= 5) else None)
+        specs.append({'form': 'volume', 'obj': o})
+        # every pair swapped, one direction raised / refined / split / reversed
+        reps = [('swap', 0, 1), ('swap', 1, 2), ('swap', 0, 2)] + [('raise', d, None) for d in range(3)] + \
+               [('split', d, None) for d in range(3)] + [('insert', d, None) for d in range(3)] + [('reverse', d, None) for d in range(3)]
+        if tier == 'quick':
+            reps = [reps[(k + j) % 3 + 3 * j] for j in range(5)]      # one of each kind, directions rotating with k
+        for op, d, d2 in reps:
+            info = gen.basis_info(o['bases'][d])
+            a, e = info['start'], info['end']
+            r = {'form': 'repind', 'op': op, 'obj': o, 'dir': d}
+            if op == 'swap':
+                r['dir2'] = d2
+            elif op == 'raise':
+                if o['bases'][d]['order'] >= 5:
+                    continue          # stay within orders <= 5, where order+1 points are exact for the Jacobian
+                r['amount'] = 1
+            elif op in ('split', 'insert'):
+                r['knots'] = [_interior(rng, a, e)]
+            specs.append(r)
+    ns = 6 if tier == 'quick' else len(SURF_ORDERS)
+    for k, orders in enumerate(SURF_ORDERS[:ns]):
+        o = _mixed_object(rng, orders, 2)
+        specs.append({'form': 'area', 'obj': o})
+        for op, d in [('swap', 0), ('raise', k % 2), ('split', (k + 1) % 2), ('reverse', k % 2), ('insert', (k + 1) % 2)]:
+            info = gen.basis_info(o['bases'][d])
+            r = {'form': 'repind', 'op': op, 'obj': o, 'dir': d}
+            if op == 'swap':
+                r['dir2'] = 1
+            elif op == 'raise':
+                if o['bases'][d]['order'] >= 5:
+                    continue
+                r['amount'] = 1
+            elif op in ('split', 'insert'):
+                r['knots'] = [_interior(rng, info['start'], info['end'])]
+            specs.append(r)
+
+
 def _gen_length(rng, tier, specs):
     n = 40 if tier == 'quick' else 300
     for i in range(n):
@@ -450,6 +536,7 @@ def generate(rng, tier):
     _gen_volume(rng, tier, specs)
     _gen_length(rng, tier, specs)
     _gen_area(rng, tier, specs)
+    _gen_mixed_orders(rng, tier, specs)
     _gen_frenet(rng, tier, specs)
     _gen_repind(rng, tier, specs)
     _gen_analytic(rng, tier, specs)
@@ -1460,6 +1547,13 @@ def tags(s, res):
     if f == 'area':
         d = _dim(o)
         out.append({2: 'area:planar', 3: 'area:3d'}.get(d, 'area:dim4-error'))
+        if not o['rational'] and d == 2:
+            out.append('area:orders-' + _order_pattern(o))
+    if f == 'volume' and not o['rational']:
+        out.append('volume:orders-' + _order_pattern(o))
+    if f == 'repind' and len(o['bases']) >= 2 and not o['rational'] and _order_pattern(o) != 'equal':
+        out.append('repind:mixed-orders')
+        out.append('repind:mixed-orders:' + s['op'])
     if f in ('curvature', 'torsion', 'frenet'):
         out.append('call=' + s['call'])
         out.append('dim=%d' % _dim(o))
